@@ -29,7 +29,7 @@ def engine_render(res):
 def compare(ck, histories, env=None, fuel=400000):
     """Run histories (list of list of units) on engine and model; return list of (engine, model) strings."""
     cases = [[lang.unit_to_steel(u) for u in h] for h in histories]
-    eng = ck.eval_cases(cases, fresh=True, env=env, batch=16, timeout_per_batch=90)
+    eng = ck.eval_cases(cases, fresh=True, env=env, batch=16, timeout_per_batch=40)
     mod = ck.coq_eval(lang.COQ_HEADER, [lang.model_expr(h, fuel) for h in histories], shard=25)
     return [(engine_render(e), m) for e, m in zip(eng, mod)]
 
@@ -44,7 +44,7 @@ def native_abort_on_error(case, params):
 
 
 def jit_off_agrees(ck, forms, reference, core=False):
-    eng = ck.eval_cases([[lang.unit_to_steel(forms)]], fresh=True, env={"STEEL_JIT": "false"}, timeout_per_batch=90)
+    eng = ck.eval_cases([[lang.unit_to_steel(forms)]], fresh=True, env={"STEEL_JIT": "false"}, timeout_per_batch=40)
     if core:
         r = eng[0][0] if eng[0] else {}
         es = ("ERR " + r["err"]) if "err" in r else ("OK " + ([v for v in r.get("ok", []) if v != "#<void>"] or ["#<void>"])[-1]) if "ok" in r else "CRASH"
@@ -233,7 +233,7 @@ def three_way(ck, n, assign=False):
     assign=True: the assignment layer (CoreS reference with a store, boxing pass, heap VM)."""
     g = CoreGen(ck.rng, assign=assign)
     progs = [g.program() for _ in range(n)]
-    eng = ck.eval_cases([[lang.unit_to_steel(p)] for p in progs], fresh=True, batch=16, timeout_per_batch=90)
+    eng = ck.eval_cases([[lang.unit_to_steel(p)] for p in progs], fresh=True, batch=16, timeout_per_batch=40)
     if assign:
         mod = ck.coq_eval(CORES_HEADER, [cores_model_expr(p) for p in progs], shard=25)
     else:
@@ -304,9 +304,13 @@ def run(ck):
         if ck.cov["evaluations"] % 40 == 1:
             ck.sample(case)
         if e != m:
-            if "CRASH" in e:
+            if "CRASH" in e or "HANG" in e:
+                ck.cov["crash_or_hang"] = ck.cov.get("crash_or_hang", 0) + 1
+                if ck.cov["crash_or_hang"] > 6:
+                    continue          # enough replays of this kind; the count is in evidence
                 case["engine_jit_off_agrees"] = jit_off_agrees(ck, p, m)
-                ck.failing_input("engine crashed where the reference semantics gives %s" % m[:60], case, tag="sem")
+                ck.failing_input("engine %s where the reference semantics gives %s"
+                                 % ("crashed" if "CRASH" in e else "did not answer within the time limit", m[:60]), case, tag="sem")
                 continue
             small = shrink_case(ck, p)
             (e2, m2), = compare(ck, [[small]])
